@@ -1660,18 +1660,35 @@ func (a *Act) fireCuts(b *ssa.BasicBlock, ii int, st *State, reach string) {
 	// last instruction of that line in this block?
 	for j := ii + 1; j < len(b.Instrs); j++ {
 		nx := b.Instrs[j]
-		if _, isDbg := nx.(*ssa.DebugRef); isDbg {
-			continue
-		}
 		if nx.Pos().IsValid() && g.eng.sourceLine(a.pos(nx.Pos())) == line {
 			return
 		}
-		if nx.Pos().IsValid() {
-			break
-		}
 	}
 	for _, c := range a.ct.Cuts {
-		if c.Anchor != line {
+		if c.Anchor != line || a.firedCuts[c] {
+			continue
+		}
+		if c.Let != "" {
+			func() {
+				defer wrapClauseErr(c.Cl)
+				e := a.newEnv(st, nil, nil)
+				if a.lets == nil {
+					a.lets = map[string]tv{}
+				}
+				v := e.value(e.eval(c.Cl.Expr))
+				if v.typ != nil && !v.spec && !v.smap {
+					v.term = g.def(a.nm("ghost_"+c.Let), g.sortOf(v.typ), v.term)
+				}
+				a.lets[c.Let] = v
+			}()
+			a.firedCuts[c] = true
+			continue
+		}
+		if c.Use {
+			if g.eng.curModes.Post {
+				a.applyLemma(c.Cl, st, nil, reach)
+			}
+			a.firedCuts[c] = true
 			continue
 		}
 		if g.eng.curModes.Post {
